@@ -30,6 +30,9 @@ RECURSIVE NatOfDigits(_)
 NatOfDigits(ds) == IF ds = <<>> THEN 0 ELSE NatOfDigits(SubSeq(ds, 1, Len(ds) - 1)) * 10 + DigitVal(ds[Len(ds)])
 AllDigits(s) == s # <<>> /\ \A i \in 1 .. Len(s) : IsDigitC(s[i])
 
+RECURSIVE DigitsOfNat(_)
+DigitsOfNat(n) == IF n < 10 THEN <<DigitL[n + 1]>> ELSE DigitsOfNat(n \div 10) \o <<DigitL[(n % 10) + 1]>>
+
 Pad2(n) == IF n < 10 THEN "0" \o ToString(n) ELSE ToString(n)
 Pad4(n) == IF n < 10 THEN "000" \o ToString(n) ELSE IF n < 100 THEN "00" \o ToString(n)
            ELSE IF n < 1000 THEN "0" \o ToString(n) ELSE ToString(n)
